@@ -135,6 +135,7 @@ func TestC16Recovery(t *testing.T) {
 		created := time.Unix(1_700_000_000, 0)
 		f := walletsim.New(t, "C16", params, seed, created, W)
 		f.StallIsViolation = true
+		f.PerAccount = true
 		defer f.Close()
 		f.Text = c.Text
 		f.Style = simchain.Style(rapid.IntRange(0, 1).Draw(t, "style"))
